@@ -240,7 +240,7 @@ CHECKS['C18']['text'] += ' Every compiled valence rule\'s hydrogen count and cha
 CHECKS['C19']['text'] += ' Every view is also evaluated alone on a fresh copy and after one other view; normalised objects are compared with their copy and with themselves after a flush.'
 CHECKS['C11']['text'] += (' V2000 columns (spec/sys/MdlFields.tla): the design model MC_MdlFields encodes every charge / isotope / radical assignment and TLC checks that the block is well formed and denotes it; '
                           'blocks the library writes are tokenised by column and validated by Trace_MdlFields, blocks rendered from generated fields (codes, property lines of 1..8 entries) are read by the library and validated the same way; '
-                          'metadata whose value lines look like structure-block lines.')
+                          'the V3000 keys CHG= / MASS= / RAD= through the same module; metadata whose value lines look like structure-block lines.')
 CHECKS['C09']['text'] += ' Ring primitives against macrocycles of 63..66 atoms (the ends of the ring-size field; known finding C09-ring-larger-than-65).'
 PENDING = {}
 
